@@ -778,7 +778,8 @@ class SymClient(Client):
         for p, d in zip(params[len(params) - len(defaults):], defaults):
             if p not in env:
                 env[p] = ast.unparse(d)
-            elif isinstance(d, ast.Constant) and d.value is None and env[p] != 'None' and self.repo.is_helper(fi):
+            elif isinstance(d, ast.Constant) and d.value is None and env[p] != 'None' and self.repo.is_helper(fi) \
+                    and not self._may_pass_none(call, fi, p):
                 # ``def f(x, status=None)`` called with the argument given: None is the "not given" marker of a new helper, the
                 # value passed explicitly is taken not to be None (the assumption the load-time inlining makes as well)
                 env['?nn:' + p] = '1'
@@ -813,6 +814,28 @@ class SymClient(Client):
         for s2, e in o.exc:
             self._pending_exc.add((SymState(s.env, s2.heap, s2.conds, s2.trail), e))
         return outs
+
+    def _may_pass_none(self, call: ast.Call, fi: FuncInfo, p: str) -> bool:
+        """is the argument given for parameter ``p`` a parameter of the calling function that itself defaults to None (the
+        caller hands its own "not given" on)?"""
+        params = fi.params[1:] if fi.kind in ('method', 'classmethod') and isinstance(call.func, ast.Attribute) else fi.params
+        arg = None
+        for q, a in zip(params, call.args):
+            if q == p:
+                arg = a
+        for kw in call.keywords:
+            if kw.arg == p:
+                arg = kw.value
+        if not isinstance(arg, ast.Name):
+            return False
+        a_ = self.f.node.args
+        names = [x.arg for x in a_.args]
+        defaults = dict(zip(names[len(names) - len(a_.defaults):], a_.defaults))
+        for x, d in zip(a_.kwonlyargs, a_.kw_defaults):
+            if d is not None:
+                defaults[x.arg] = d
+        d = defaults.get(arg.id)
+        return isinstance(d, ast.Constant) and d.value is None
 
     def _eval(self, e: ast.AST, s: SymState) -> List[SymState]:
         """Effects of all calls inside ``e`` in evaluation order."""
